@@ -58,7 +58,7 @@ var props = map[string]propSpec{
 	"C06": {scenarios: []string{"C06", "C06", "C06", "C06", "C15"}, level: "exploration", quickRuns: 3000, thoroughRuns: 60000, runLimit: 30 * time.Second,
 		requiredProbes: []string{"multi-item-snapshot-offset", "ack-of-event-from-older-snapshot", "seqno-advanced-closing-snapshot", "stored-offset-judged", "out-of-snapshot-item-emitted", "stream-request-offset-judged"}},
 	"C13": {scenarios: []string{"C13", "C13r"}, level: "exploration", quickRuns: 2500, thoroughRuns: 60000, runLimit: 30 * time.Second,
-		requiredProbes: []string{"close:idle", "close:during-delivery", "close:save-in-flight", "shutdown-completed", "close:during-rebalance", "notification-during-shutdown-stream-stop"}},
+		requiredProbes: []string{"close:idle", "close:during-delivery", "close:save-in-flight", "shutdown-completed", "close:during-rebalance", "notification-during-shutdown-stream-stop", "close-after-a-failed-save"}},
 	"C16": {scenarios: []string{"C16", "C16", "C16r"}, level: "exploration", quickRuns: 2500, thoroughRuns: 60000, runLimit: 30 * time.Second,
 		requiredProbes: []string{"scrape-judged", "counter-judged", "scrape-while-closed-or-closing", "scrape-inside-callback"}},
 	"C11": {level: "exploration", quickRuns: 2500, thoroughRuns: 50000, runLimit: 30 * time.Second,
